@@ -20,10 +20,12 @@ func init() {
 	register(&propDef{
 		ID: "C03", Level: "exploration",
 		Families: []family{
-			{Name: "l1-programs", Fn: scnC03L1, Weight: 1, Group: c03Group},
+			{Name: "l1-programs", Fn: scnC03L1, Weight: 3, Group: c03Group},
+			{Name: "syncmap-linearizable", Fn: scnC03SyncMap, Weight: 1, Group: c03Group},
 		},
 		Rule: "tape-generated concurrent programs (2-4 tasks, <=8 tracker operations) x schedules " +
 			"(baseline, systematic single-preemption sweep over (tasks completed first, preempted task, point), PCT d<=3, random, biased); " +
+			"plus the GenericSyncMap both maps are built on: concurrent Store/Load/Has/Delete/Len/Iterate/WithLockedValueDo histories checked for linearizability against a plain map (porcupine); " +
 			"non-trivial = at least one preemption of a task that was still runnable (a context switch inside an operation sequence); " +
 			"distinct = distinct (program hash, schedule hash)",
 		Quick: 48 * c03Group, Thorough: 1500 * c03Group,
